@@ -51,6 +51,15 @@ STRUCT = set(";()'\"`$-/*#,.[]\\\n\r")
 
 
 def body_soup(rng, forbid_chars='', forbid_subs=(), maxlen=40):
+    if maxlen >= 40 and rng.random() < 0.002:
+        unit = body_soup(rng, forbid_chars, forbid_subs, 12) + ' ; x '
+        body = unit * (rng.choice([5000, 9000, 70000]) // len(unit))
+        for c in forbid_chars:
+            body = body.replace(c, '')
+        for sub in forbid_subs:
+            while sub in body:
+                body = body.replace(sub, '')
+        return body
     n = rng.choice([0, 1, 2, 3, 5, 8, 13, 20, maxlen])
     out = []
     for _ in range(n):
